@@ -8,7 +8,9 @@ EXPLANATION = ("Static analysis of the resolved program (rustc HIR + type check)
                "parse_from_block4 functions and every parse call site, the structural necessary conditions of "
                "a drop-free parser are decided on every path: end-of-input check before Ok (G1), anchored "
                "extraction (G2), no discarded field error (G3), every parsed field is written back (G4), "
-               "every option letter of the model is detectable (G7), sequence loops consume their marker (G8). "
+               "every option letter of the model is detectable (G7), sequence loops consume their marker (G8); field "
+               "and header parsers do not cut their content (fixed slices without an upper length test U3, "
+               "take(n) / capped loops without a rejection U4). "
                "Value equality up to canonical formatting is not decided.")
 ASSUMPTIONS = ["rustc front end (name resolution, type check) is correct",
                "the may-flow extractor in rules/grammar.py over-approximates value flow from parse call "
@@ -36,4 +38,9 @@ def run(F, tier):
                         "appends": [".".join(a.path or ("?",)) for a in tm.w.appends][:12]})
     accept.u6(rep, F, "parser")
     accept.u7(rep, F, "parser")
+    # the same question one level down: a field parser that reads only a prefix of its content (fixed slices, take(n),
+    # a capped loop) and accepts the rest unseen drops part of an accepted message
+    from . import fieldfmt
+    fieldfmt.u3(rep, F, "fields")
+    fieldfmt.u4(rep, F)
     return rep
